@@ -63,7 +63,7 @@ def init (v : Variant) (a : InitArgs) (e : Env) : Res State := do
       pure { s with lockPct := a.lockPct, unlockEpoch := a.unlockEpoch, lockAddr := a.lockAddr }
     else pure s
   if v.hasNft then do
-    validCost a.nftCost
+    validCost a.lpTok a.nftCost
     pure { s with nftCost := a.nftCost, availNfts := a.availNfts }
   else pure s
 
@@ -165,7 +165,7 @@ def exec (hash : List Nat → List Nat) (t : Tx) (e : Env) : Call → Res Tx
   | .secondary => secondary hash t e
   | .setNftCost c => do
     requireStage t.s e .addTickets "Add tickets period has passed"
-    validCost c
+    validCost t.s.lpTok c
     pure (t.setS { t.s with nftCost := c })
   | .issueSft => do extendedPermissions t.s e; .error (.vm "async call to the system SC is not modelled")
   | .createSfts => do
